@@ -5,18 +5,24 @@ from numpy.fft import rfft, irfft
 from numpy import divmod as np_divmod
 
 
+def _no_status(*args):
+    # module-level (rather than a name-mangled static method) so that
+    # samplers created with display_progress=False can be pickled
+    pass
+
+
 class ChainProgressPrinter:
     def __init__(self, display: bool = True, leading_msg: str = None):
         self.lead = "" if leading_msg is None else leading_msg
 
         if not display:
-            self.iterations_initial = self.__no_status
-            self.iterations_progress = self.__no_status
-            self.iterations_final = self.__no_status
-            self.percent_progress = self.__no_status
-            self.percent_final = self.__no_status
-            self.countdown_progress = self.__no_status
-            self.countdown_final = self.__no_status
+            self.iterations_initial = _no_status
+            self.iterations_progress = _no_status
+            self.iterations_final = _no_status
+            self.percent_progress = _no_status
+            self.percent_final = _no_status
+            self.countdown_progress = _no_status
+            self.countdown_final = _no_status
 
     def iterations_initial(self, total_itr: int):
         sys.stdout.write("\n")
@@ -74,10 +80,6 @@ class ChainProgressPrinter:
         )
         sys.stdout.flush()
         sys.stdout.write("\n")
-
-    @staticmethod
-    def __no_status(*args):
-        pass
 
 
 def effective_sample_size(x: ndarray) -> int:
